@@ -17,6 +17,8 @@ func init() {
 }
 
 func runC02(c *Ctx) {
+	defer checkSessionSetExpiresAt(c, "C02.R9")
+	defer checkGrantedBeforeMint(c, "C02.R8")
 	defer checkConfigGetters(c, "C02.R7", "GetSanitationWhiteList", "GetAuthorizeCodeLifespan")
 	const role = "code-validate"
 	defer c02Whitelist(c)
